@@ -20,12 +20,12 @@ def host_is_deletion(h_in, h_out):
     """h_out is h_in (lower, idna-decoded) with only whole irrelevant labels, or a leading 'amp-', removed."""
     a = [idna_label(l) for l in h_in.lower().split(".")]
     b = h_out.split(".")
-    if a and a[0].startswith("amp-") and (not b or b[0] != a[0]):
-        a = [a[0][4:]] + a[1:]
     i = 0
     for lab in a:
         if i < len(b) and b[i] == lab.lower():
             i += 1
+        elif i == 0 and lab.startswith("amp-") and b and b[0] == lab[4:].lower():
+            i += 1          # 'amp-' leading the host once the irrelevant labels before it are gone
         elif deletable(lab):
             continue
         else:
@@ -130,6 +130,14 @@ def run(res, tier, rng):
                     break
             if not ok:
                 res.violation("property", "the query is not a sub-list of the input's items", input=dict(url=u, options=o), impl=items_out, expected=items_in)
+            else:
+                # an item is deleted because of what it is (irrelevant key / value): identical items share their fate
+                for it in set(items_in):
+                    k_in, k_out = items_in.count(it), items_out.count(it)
+                    if k_in > 1 and k_out not in (0, k_in):
+                        res.violation("property", "an item that is kept loses some of its occurrences (the query is not the input's items minus the irrelevant ones)",
+                                      input=dict(url=u, options=o), impl=items_out, expected=items_in)
+                        break
     # switching one option off changes nothing but its own part: compare with the default run on the other components
     compare_normalize(res, cases)
     n1 = regexcorr.run(res, rng, names=REGEXES, exh_len=3, nrand=300 if tier == "quick" else 3000)
@@ -137,6 +145,6 @@ def run(res, tier, rng):
     res.nontrivial = nontriv
     res.rule = ("urls of the C01 grammar plus unparseable ones (bad port, unbalanced brackets, empty, whitespace) x uniformly sampled option settings (10 booleans x strip_fragment in "
                 "{True, False, 'except-routing'} x quoted): never raises, unparseable returned unchanged, host = input host minus whole irrelevant labels / leading 'amp-', non-default port kept, "
-                "options switched off preserve their component, query items a sub-list of the input's; model vs implementation (string and unsplit=False). Non-trivial = urls changed.")
+                "options switched off preserve their component, query items a sub-list of the input's, identical items all kept or all deleted; model vs implementation (string and unsplit=False). Non-trivial = urls changed.")
     res.sample(dict(url=urls[20], options=cases[20][1], result=call(normalize_url, urls[20], **cases[20][1])))
     res.theorems = THEOREMS
